@@ -35,6 +35,8 @@ pub enum Op {
     /// via: 0 set_attribute, 1 attributes_mut().insert, 2 entry().or_insert + assign
     SetAttr(Node, QName, String, u8),
     RemoveAttr(Node, QName, u8),
+    /// attributes_mut(e).clear() (true) / namespaces_mut(e).clear() (false)
+    ClearMap(Node, bool),
     SetNs(Node, String, String, u8),
     RemoveNs(Node, String, u8),
     SetElementName(Node, QName),
@@ -82,6 +84,8 @@ impl Op {
             Op::SetAttr(..) => "attributes_mut.entry",
             Op::RemoveAttr(_, _, 0) => "remove_attribute",
             Op::RemoveAttr(..) => "attributes_mut.remove",
+            Op::ClearMap(_, true) => "attributes_mut.clear",
+            Op::ClearMap(_, false) => "namespaces_mut.clear",
             Op::SetNs(_, _, _, 0) => "set_namespace",
             Op::SetNs(_, _, _, 1) => "namespaces_mut.insert",
             Op::SetNs(..) => "namespaces_mut.entry",
@@ -116,7 +120,7 @@ impl Op {
             | AppendNamespace(a, _, _) | SetAttr(a, _, _, _) | RemoveAttr(a, _, _) | SetNs(a, _, _, _)
             | RemoveNs(a, _, _) | SetElementName(a, _) | SetText(a, _) | SetComment(a, _)
             | SetPiData(a, _) | SetAttrValue(a, _) | SetNsUri(a, _) | TextContentMut(a, _)
-            | NewDocWithElement(a) | RemoveWs(a) | CreateMissingPrefixes(a) | DedupNs(a) => (Some(*a), None),
+            | NewDocWithElement(a) | RemoveWs(a) | CreateMissingPrefixes(a) | DedupNs(a) | ClearMap(a, _) => (Some(*a), None),
             NewLeaf(_) | NewAttrNode(..) | NewNsNode(..) | Parse(_) | SetConsolidation(_) => (None, None),
         }
     }
@@ -124,7 +128,7 @@ impl Op {
     pub fn documented_panic_family(&self) -> bool {
         matches!(
             self,
-            Op::SetAttr(..) | Op::RemoveAttr(..) | Op::SetNs(..) | Op::RemoveNs(..) | Op::SetElementName(..)
+            Op::SetAttr(..) | Op::RemoveAttr(..) | Op::SetNs(..) | Op::RemoveNs(..) | Op::SetElementName(..) | Op::ClearMap(..)
         )
     }
 }
@@ -217,6 +221,14 @@ pub fn exec(xot: &mut Xot, op: &Op) -> Outcome {
                         let slot = m.entry(name).or_insert(String::new());
                         *slot = v.clone();
                     }
+                }
+                Ok(Some(None))
+            }
+            ClearMap(e, attrs) => {
+                if *attrs {
+                    xot.attributes_mut(*e).clear();
+                } else {
+                    xot.namespaces_mut(*e).clear();
                 }
                 Ok(Some(None))
             }
@@ -604,7 +616,7 @@ impl Forest {
                 _ => container(*e) && ordinary_movable(*a) && !anc_or_self(*a, *e),
             },
             AppendNamespace(e, _, _) => kind(*e) == MKind::Elem,
-            SetAttr(e, ..) | RemoveAttr(e, ..) | SetNs(e, ..) | RemoveNs(e, ..) | SetElementName(e, _) => {
+            SetAttr(e, ..) | RemoveAttr(e, ..) | SetNs(e, ..) | RemoveNs(e, ..) | SetElementName(e, _) | ClearMap(e, _) => {
                 kind(*e) == MKind::Elem
             }
             SetText(n, _) => kind(*n) == MKind::Text,
@@ -848,6 +860,15 @@ impl Forest {
                 if let Some(existing) = self.model.find_attr(e, q) {
                     self.model.unlink(existing);
                     self.model.kill_subtree(existing);
+                }
+            }
+            ClearMap(e, attrs) => {
+                // exactly the entries of that one map go; the other map and the children stay
+                let e = mid(self, *e)?;
+                let victims: Vec<Mid> = if *attrs { self.model.n(e).attrs.clone() } else { self.model.n(e).nss.clone() };
+                for v in victims {
+                    self.model.unlink(v);
+                    self.model.kill_subtree(v);
                 }
             }
             SetNs(e, p, u, _) => {
@@ -1243,6 +1264,7 @@ pub fn describe_op(x: &Xot, op: &Op) -> String {
         AppendNamespace(a, p, u) | SetNs(a, p, u, _) => format!("{}({}, {:?}, {:?})", op.name(), d(a), p, u),
         SetAttr(a, q, v, _) => format!("{}({}, {}, {:?})", op.name(), d(a), q.clark(), v),
         RemoveAttr(a, q, _) => format!("{}({}, {})", op.name(), d(a), q.clark()),
+        ClearMap(a, _) => format!("{}({})", op.name(), d(a)),
         RemoveNs(a, p, _) => format!("{}({}, {:?})", op.name(), d(a), p),
         SetPiData(a, dd) => format!("{}({}, {:?})", op.name(), d(a), dd),
         NewLeaf(a) => format!("new_node({})", a.show()),
@@ -1345,6 +1367,7 @@ impl OpGen {
             1, // parse
             1, 1, 1, // remove_ws, create_missing_prefixes, dedup
             1, // set consolidation
+            2, // attributes_mut.clear / namespaces_mut.clear
         ];
         let k = rng.pick_weighted(&w);
         let b = self.related(xot, live, if k < 4 || k == 6 { container } else { a }, rng);
@@ -1469,10 +1492,11 @@ impl OpGen {
                 if !self.allow_unmodelled { return None; }
                 Op::DedupNs(a)
             }
-            _ => {
+            38 => {
                 if !self.allow_consolidation_toggle { return None; }
                 Op::SetConsolidation(rng.bool())
             }
+            _ => Op::ClearMap(container, rng.bool()),
         };
         Some(op)
     }
